@@ -76,6 +76,10 @@ func c15RuleSets() []c15RuleSet {
 		{Name: "unanchored+dollar", Flags: []string{"--skip-auth-route=GET=/public$", "--skip-auth-route=/health", "--skip-auth-route=DELETE=/tmp/.*\\.bak$"},
 			Paths:    []string{"/public", "/a/public", "/public/x", "/publicx", "/health", "/a/healthy", "/x/health/y", "/heal", "/tmp/a.bak", "/tmp/a.bakx", "/tmp/abak", "/x/tmp/y/z.bak", "/secret", "/"},
 			Literals: []string{"/public", "/health", "/tmp/a.bak"}},
+		// the same regular expression under several methods and once negated: every rule is a rule of its own (round 8)
+		{Name: "same-regex-several-methods", Flags: []string{"--skip-auth-route=GET=^/api/public$", "--skip-auth-route=POST=^/api/public$", "--skip-auth-route=PUT!=^/api/public$", "--skip-auth-route=DELETE=^/api/public$", "--skip-auth-route=GET=^/api/public$"},
+			Paths:    []string{"/api/public", "/api/public/", "/api/publicx", "/other", "/", "/api"},
+			Literals: []string{"/api/public", "^/api/public$"}},
 		{Name: "negated-anchored", Flags: []string{"--skip-auth-route=GET!=^/private"},
 			Paths:    []string{"/private", "/private/x", "/privatex", "/xprivate", "/priv", "/a/private", "/", "/Private"},
 			Literals: []string{"/private", "^/private"}},
@@ -371,6 +375,8 @@ func c15NetSets() []c15NetSet {
 		{"all-v6", []string{"::/0"}},
 		{"loopback", []string{"127.0.0.1", "127.0.0.0/8", "::ffff:127.0.0.1", "::1", "0.0.0.0/0", "::/0"}},
 		// nested networks sharing their base address, the narrower one listed first (and an IPv4-mapped spelling of a nested one)
+		// prefixes shorter than one octet (the network spans several first octets), plain and in IPv4-mapped spelling; short IPv6 prefix (round 8)
+		{"short-prefixes", []string{"10.0.0.0/7", "128.0.0.0/1", "64.0.0.0/3", "::ffff:32.0.0.0/101", "2000::/3", "fc00::/7"}},
 		{"nested-same-base", []string{"192.168.0.0/24", "192.168.0.0/21", "2001:db8::/124", "2001:db8::/118", "::ffff:192.168.8.0/120", "192.168.8.0/22", "192.168.12.0", "192.168.12.0/23"}},
 	}
 }
@@ -445,6 +451,13 @@ func c15Universe(ps []netip.Prefix, thorough bool) []c15Addr {
 		}
 		add(first, "first")
 		add(last, "last")
+		if p.Bits() < first.BitLen() { // first address of the upper half of the network
+			m := first.AsSlice()
+			m[p.Bits()/8] |= 1 << (7 - uint(p.Bits()%8))
+			if x, ok := netip.AddrFromSlice(m); ok {
+				add(x, "upper-half")
+			}
+		}
 		add(first.Prev(), "before")
 		add(last.Next(), "after")
 	}
